@@ -240,6 +240,20 @@ def _solve_custom(demands, pricing_fn, initial_columns, max_iter, eps, on_progre
                 solution[col] = solution.get(col, 0) + count  # a column may be listed more than once
                 total += count
 
+    # Verify the plan as the cutting-stock path does: columns that cannot cover a demand leave the master infeasible
+    # (lp_obj is inf then, and ceil() of it used to raise OverflowError)
+    for i in range(len(demands)):
+        produced = sum(col[i] * cnt for col, cnt in solution.items())
+        if produced < demands[i]:
+            return Result(
+                solution,
+                float(total),
+                iteration,
+                iteration,
+                Status.INFEASIBLE,
+                error=f"Demand not met for piece {i}: {produced} < {demands[i]}",
+            )
+
     lb = ceil(lp_obj - eps)
     status = Status.OPTIMAL if converged and total <= lb else Status.FEASIBLE
 
